@@ -102,3 +102,10 @@ func VerifMatchHierarchy(name string, set []string) bool {
 	}
 	return matchHierarchy(name, m)
 }
+
+// VerifReadBlocklists is what refreshRemote does after its one second wait
+// (with no remote list configured fetchBlocklist is a no-op): the directory walk.
+func VerifReadBlocklists(b *BlockList) error {
+	b.fetchBlocklist()
+	return b.readBlocklists()
+}
